@@ -9,19 +9,19 @@ ALL = [f"C{n:02d}" for n in range(1, 21)]
 CLAIMED = {
     "C01": (
         "table folding of regex byte classes vs ISO 32000-1 Tables 1-3, finite-domain evaluation of the _parse_main dispatch, scanner-FSM extraction with reference automaton, buffer-read classification, typestate initialisation dataflow, pairing of assembly keywords; sibling agreement of the value keywords handled by the two object readers; key-dependence check of the interning table; EOL-normalisation table check of the string scanner; comparison of every scanner transition's branch condition with a reviewed reference",
-        "Decides the structural necessary conditions of 'every conformant spelling reads back': lexical classes, escapes, dispatch, automaton shape, initialisation of scanner fields, balanced array/dict/proc assembly, and - completely - that no scanner reads ahead of the current byte or branches on the buffer length (buffer/offset independence). It does not decide the value computed for each token (number grammar, #xx, nesting depth): that part is value-level and is not claimed. Also decides that PDFStreamParser (object streams) converts the same keywords into values as PDFParser (null, R). Also decides that names are interned under the name as given, and whether a raw end-of-line inside a literal string is normalised (today it is not: known finding C01-R9). The branch conditions of all scanner states except the main dispatch are compared with a reviewed reference table.",
+        "Decides the structural necessary conditions of 'every conformant spelling reads back': lexical classes, escapes, dispatch, automaton shape, initialisation of scanner fields, balanced array/dict/proc assembly, and - completely - that no scanner reads ahead of the current byte or branches on the buffer length (buffer/offset independence). It does not decide the value computed for each token (number grammar, #xx, nesting depth): that part is value-level and is not claimed. Also decides that PDFStreamParser (object streams) converts the same keywords into values as PDFParser (null, R). Also decides that names are interned under the name as given, and whether a raw end-of-line inside a literal string is normalised (today it is not: known finding C01-R9). The branch conditions of all scanner states except the main dispatch are compared with a reviewed reference table. Round 6: hex-string digits are paired over the whole white-space-stripped token and HEX_PAIR has the reviewed regex syntax tree (C01-R10).",
         "Trusts CPython ast/re, the transcription of Tables 1-3 in spec/pdf_lexical.json and the reference automaton confirmed by reading. Known finding C01-R4 (odd hex digit) is pinned by the existing test-suite and therefore recorded, not repaired.",
         "DESIGN.md §5 C01",
     ),
     "C02": (
         "CFG dominance / must-pass checks on read_xref_from and getobj, sibling-agreement dependence check on the two cross-reference-stream readers, raise-class check on the classic loader's failure exits, binding checks; write-set inventory of the object caches; refill-before-read typestate of the line reader; sibling agreement of the entry-type decoding; PSEOF-handler coverage of the loaders' tokenizer calls; binding checks of the classic-table, body-scan and object-stream readers",
-        "Decides structural necessary conditions of xref resolution: newest-first collection (append dominates the descent into XRefStm then Prev), first hit wins in getobj and in the trailer loop, both readers of a cross-reference stream index entries with a counter carried across /Index ranges, every failure exit of the classic loader raises PDFNoValidXRef and its handler engages the body scan (fallback flag set before loading; stream data extended only in fallback mode), object-stream member index and entry-field slicing. Equality of answers across physical forms, EOL styles and buffer sizes is value/history level and not decided. Also decides that the object caches are written only by the lookup that owns them, under the key looked up (an entry registered elsewhere would bypass the newest-first walk). Also decides that the line reader refills its buffer before every look at it and that both xref-stream readers default the entry type to 1. Also decides that end of input inside a loader is routed to the body scan, and the entry bindings of the classic table, the body scan and object-stream parsing.",
+        "Decides structural necessary conditions of xref resolution: newest-first collection (append dominates the descent into XRefStm then Prev), first hit wins in getobj and in the trailer loop, both readers of a cross-reference stream index entries with a counter carried across /Index ranges, every failure exit of the classic loader raises PDFNoValidXRef and its handler engages the body scan (fallback flag set before loading; stream data extended only in fallback mode), object-stream member index and entry-field slicing. Equality of answers across physical forms, EOL styles and buffer sizes is value/history level and not decided. Also decides that the object caches are written only by the lookup that owns them, under the key looked up (an entry registered elsewhere would bypass the newest-first walk). Also decides that the line reader refills its buffer before every look at it and that both xref-stream readers default the entry type to 1. Also decides that end of input inside a loader is routed to the body scan, and the entry bindings of the classic table, the body scan and object-stream parsing. Round 6: every get_pos signals absence with a KeyError subclass, the signal getobj's fall-through catches (C02-R11); a malformed classic-table line raises PDFNoValidXRef rather than being skipped (C02-R12).",
         "Trusts CPython ast and the reading of ISO 32000-1 7.5.4-7.5.8 encoded in the rule.",
         "DESIGN.md §5 C02",
     ),
     "C03": (
         "table folding of filter-name literals vs ISO 32000-1 Tables 6/94, dispatch-chain extraction, parameter binding against callee signatures, ceiling-division normal forms for row-buffer units, polynomial/comparison normal form of the Paeth function, CFG dominance on the payload read; write-set of the payload variable; constant/case-split checks of the RunLength, ASCIIHex and ASCII85 decoders",
-        "Decides structural necessary conditions of stream decoding: names/abbreviations and the decoder each reaches, pairing and order of filters and parameters with the predictor after its filter, predictor dispatch/defaults/bindings, byte units of the PNG row buffers, the Paeth function and per-type operands, payload delimited by /Length after the stream line. Round-trip equality of the LZW/RunLength/ASCII85/Flate decoders is value level and not decided. Also decides that the payload is modified only by fallback-mode appends, and the case split and constants of the byte-oriented decoders.",
+        "Decides structural necessary conditions of stream decoding: names/abbreviations and the decoder each reaches, pairing and order of filters and parameters with the predictor after its filter, predictor dispatch/defaults/bindings, byte units of the PNG row buffers, the Paeth function and per-type operands, payload delimited by /Length after the stream line. Round-trip equality of the LZW/RunLength/ASCII85/Flate decoders is value level and not decided. Also decides that the payload is modified only by fallback-mode appends, and the case split and constants of the byte-oriented decoders. Round 6: the declared /Predictor value takes no part in PNG row decoding (each row's filter is its tag byte).",
         "Trusts spec/pdf_filters.json (transcribed from ISO 32000-1 and PNG 1.2).",
         "DESIGN.md §5 C03",
     ),
@@ -33,25 +33,25 @@ CLAIMED = {
     ),
     "C05": (
         "arity/dispatch table check vs ISO 32000-1 Annex A, must-call ordering on handler CFGs, polynomial normal forms of the positioning kernels and pen-advance bindings, copy-completeness of state objects, pairing/restore checks on the form-XObject branch; truth-test lint on safe_float/safe_int results; width-table guard shared with C07; write-set of the stream switch (fillfp); operand-stack discipline of pop; refill-sequence check of the content parser; fresh-state write-set of render_contents; per-interpreter colour-space table",
-        "Decides the structural necessary conditions of the text model: each text/graphics-state operator exists with the spec'd operand count and is only invoked with all operands; ', \", TD, Tj decompose as 9.4.2-9.4.3 prescribe; Td/TD/T*/Tm/BT/cm compute the spec formulas (polynomial identities); q/Q and TJ snapshots copy every state field; nested form execution uses a fresh interpreter, own/copied resources, balanced figure bracket and re-issues the caller's CTM; scale factors and parameter bindings of the pen advance are the spec's. Numeric glyph positions for arbitrary programs and font metrics are not decided. Also decides that converted operands are rejected only when None (0 is a value) and that an explicit zero width in a width table wins over the default. Also decides that switching to the next content stream keeps the lexical state and that pop(n) always consumes what it returns. Also decides that every content starts from a fresh state and that the buffer position of the content parser is taken from the open stream.",
+        "Decides the structural necessary conditions of the text model: each text/graphics-state operator exists with the spec'd operand count and is only invoked with all operands; ', \", TD, Tj decompose as 9.4.2-9.4.3 prescribe; Td/TD/T*/Tm/BT/cm compute the spec formulas (polynomial identities); q/Q and TJ snapshots copy every state field; nested form execution uses a fresh interpreter, own/copied resources, balanced figure bracket and re-issues the caller's CTM; scale factors and parameter bindings of the pen advance are the spec's. Numeric glyph positions for arbitrary programs and font metrics are not decided. Also decides that converted operands are rejected only when None (0 is a value) and that an explicit zero width in a width table wins over the default. Also decides that switching to the next content stream keeps the lexical state and that pop(n) always consumes what it returns. Also decides that every content starts from a fresh state and that the buffer position of the content parser is taken from the open stream. Round 6: the composite operators ' and \" touch the text state only through Tw/Tc/T*/TJ (C05-R13); state-copy completeness accepts the setattr-loop spelling.",
         "Trusts the transcription of Annex A in spec/pdf_operators.json. Known finding C05-R6 (character spacing added before instead of after a glyph) is recorded, not repaired.",
         "DESIGN.md §5 C05",
     ),
     "C16": (
         "arity table check, paint-flag table with delegation resolution, post-dominance of the path reset, symbolic evaluation of path construction (`re` normal form), write-set checks of colour/line-state operators, parameter binding from paint_path through LTLine/LTRect into LTCurve fields, saved-state completeness; truth-test lint on converted operands; per-interpreter copy of the colour-space table; push/pop pairing of q/Q; positional dependence of safe_* results (shared with C13)",
-        "Decides the structural necessary conditions of path painting: arities, (stroke, fill, even-odd) flags per operator, close-first for s/b/b*, current path cleared on all paths by every painting operator and n, `re` expansion, which graphics-state fields each colour/line operator writes, that every shape constructor receives line width, flags, both colours, path and dash of the state in force (followed down to the stored fields), the classification sets, that shape decisions read device-space points only, and which state q/Q saves. Transformed coordinates as numbers are not decided. Also decides that `0 w` style operands are not rejected by truth tests and that the colour-space table is a per-interpreter copy. Also decides that q pushes on every path and Q pops whenever the stack is non-empty. Also decides that safe_rgb/safe_cmyk/safe_matrix return the converted operands in the order given.",
+        "Decides the structural necessary conditions of path painting: arities, (stroke, fill, even-odd) flags per operator, close-first for s/b/b*, current path cleared on all paths by every painting operator and n, `re` expansion, which graphics-state fields each colour/line operator writes, that every shape constructor receives line width, flags, both colours, path and dash of the state in force (followed down to the stored fields), the classification sets, that shape decisions read device-space points only, and which state q/Q saves. Transformed coordinates as numbers are not decided. Also decides that `0 w` style operands are not rejected by truth tests and that the colour-space table is a per-interpreter copy. Also decides that q pushes on every path and Q pops whenever the stack is non-empty. Also decides that safe_rgb/safe_cmyk/safe_matrix return the converted operands in the order given. Round 6: PDFGraphicState.copy() is complete (C16-R11, shared with C05-R4).",
         "Trusts spec/pdf_operators.json. Known findings C16-R6 (current colour spaces not part of the q/Q snapshot) are recorded.",
         "DESIGN.md §5 C16",
     ),
     "C06": (
         "ordering/precedence extraction, table folding of the Latin encoding table through the glyph list against Python's cp1252/mac_roman codecs (independent oracle), overlay-algorithm and copy-before-store checks, anchored-regex guard check, dispatch table of font subtypes, binding checks of width lookups; bfrange/bfchar expansion checks of the ToUnicode parser (shared with C07); in-place-write inventory of the font encoding tables; base-initialiser ordering; per-iteration reset of the font cache key (CFG must-pass); integer-range check of the surrogate guard; binding checks of the Type 1 header parser",
-        "Decides structural necessary conditions for simple fonts: ToUnicode precedes the encoding and a missing mapping becomes (cid:N); WinAnsi/MacRoman columns equal the platform codecs except the documented deviations and every glyph name resolves; Differences overlay semantics on a copy; glyph-name hex parts validated over their whole length; subtype dispatch; Widths/FirstChar/MissingWidth/FontMatrix bindings. The AGL algorithm as a string function, the standard-14 metric tables (no oracle on this machine) and Type 1 header parsing are not decided. Also decides the inclusive expansion of ToUnicode bfrange entries. Also decides that fonts never write into their (possibly shared) encoding table and that fields set by a base initialiser are set by subclasses only after calling it. Also decides that the font cache key is reset for every font, that exactly D800..DFFF are refused, and the dup/put bindings of the Type 1 header parser.",
+        "Decides structural necessary conditions for simple fonts: ToUnicode precedes the encoding and a missing mapping becomes (cid:N); WinAnsi/MacRoman columns equal the platform codecs except the documented deviations and every glyph name resolves; Differences overlay semantics on a copy; glyph-name hex parts validated over their whole length; subtype dispatch; Widths/FirstChar/MissingWidth/FontMatrix bindings. The AGL algorithm as a string function, the standard-14 metric tables (no oracle on this machine) and Type 1 header parsing are not decided. Also decides the inclusive expansion of ToUnicode bfrange entries. Also decides that fonts never write into their (possibly shared) encoding table and that fields set by a base initialiser are set by subclasses only after calling it. Also decides that the font cache key is reset for every font, that exactly D800..DFFF are refused, and the dup/put bindings of the Type 1 header parser. Round 6: the Type 1 built-in encoding is read under exactly {'Encoding' not in spec, 'FontFile' in descriptor} (C06-R13, guard conjunct sets).",
         "Trusts Python's cp1252 and mac_roman codecs and the documented deviations of ISO 32000-1 Annex D.",
         "DESIGN.md §5 C06",
     ),
     "C07": (
         "dispatch/format extraction for the identity CMaps, size-agreement check of struct.unpack, begin/end pairing and chunk-size extraction in the CMap parser, dependence/inclusive-bound checks on every range expansion, binding checks of DW2/W2; alias analysis of the Type0 descendant dictionary (shared with C12-R5); typestate of the CMap.decode cursor; memo dependence (shared with C12); mask normal form of TrueType glyph ids; dispatch check of ToUnicode targets and CMap-name selection",
-        "Decides only the structural part, which is a minority of this property: identity CMap segmentation (width, byte order, writing mode, whole codes only), begin/end handling of the ToUnicode parser, index dependence and inclusive bounds of bfrange/cidrange/W/W2 expansions, DW2/W2 bindings. CJK code segmentation and Unicode values come from pickled data files, and agreement with platform codecs is value level: not decided. Also decides that the descendant dictionary handed to the CID font is the font's own copy. Also decides that every byte moves the code-table cursor (descend / emit and restart / restart on an unassigned byte). Also decides the 16-bit wrap of TrueType format-4 glyph ids and how ToUnicode targets and CMap names are interpreted.",
+        "Decides only the structural part, which is a minority of this property: identity CMap segmentation (width, byte order, writing mode, whole codes only), begin/end handling of the ToUnicode parser, index dependence and inclusive bounds of bfrange/cidrange/W/W2 expansions, DW2/W2 bindings. CJK code segmentation and Unicode values come from pickled data files, and agreement with platform codecs is value level: not decided. Also decides that the descendant dictionary handed to the CID font is the font's own copy. Also decides that every byte moves the code-table cursor (descend / emit and restart / restart on an unassigned byte). Also decides the 16-bit wrap of TrueType format-4 glyph ids and how ToUnicode targets and CMap names are interpreted. Round 6: W/W2 range loops run under no further condition than the integer tests (C07-R12).",
         "Thin by design (DESIGN §6): most of the behaviour is data, not code.",
         "DESIGN.md §5 C07",
     ),
@@ -63,13 +63,13 @@ CLAIMED = {
     ),
     "C09": (
         "normalised predicate extraction (comparison direction, commutative operands, polynomial difference) compared with the documented definitions, mirror-image (x<->y) sibling agreement of the horizontal/vertical variants, polynomial normal form of the ordering keys, dimension (homogeneity) analysis of every comparison / sum / min / max / sort key in the layout code; truth-test lint on the optional boxes_flow parameter; strict-overlap predicate of Plane.find (shared with C20)",
-        "Decides that the grouping predicates are the documented ones (strictness, min vs max, which operand), that vertical variants mirror the horizontal ones, that ordering keys are top-to-bottom/left-to-right, and that every decision in the layout code compares quantities of equal degree in length with dimensionless parameters - which, with exact scaling by powers of two, is the argument for scale invariance. The grouping outcome on concrete arrangements (closure of the neighbour relation, reading order of real documents) is not decided. Also decides that boxes_flow is compared with None by identity wherever it selects a branch (0 is a documented value). Also decides that the neighbour search is strict on all four sides.",
+        "Decides that the grouping predicates are the documented ones (strictness, min vs max, which operand), that vertical variants mirror the horizontal ones, that ordering keys are top-to-bottom/left-to-right, and that every decision in the layout code compares quantities of equal degree in length with dimensionless parameters - which, with exact scaling by powers of two, is the argument for scale invariance. The grouping outcome on concrete arrangements (closure of the neighbour relation, reading order of real documents) is not decided. Also decides that boxes_flow is compared with None by identity wherever it selects a branch (0 is a documented value). Also decides that the neighbour search is strict on all four sides. Round 6: every iteration of group_textlines reaches find_neighbors (must-pass, C09-R7).",
         "Assumes exact float scaling by powers of two, coordinates below the INF sentinels, and that Plane.gridsize only affects bucketing (C20).",
         "DESIGN.md §5 C09",
     ),
     "C10": (
         "who-may-call inventory of decryption sites with branch placement, CFG ordering checks, must-pass-through of PKCS#7 removal, table check of algorithm constants / round counts / slice lengths / update order / registry against ISO 32000 7.6, canonical comparison of the unsigned conversion; normal form of the recursive decipher walk; normal form of RC4; table check of the SASLprep mapping step",
-        "Decides structural necessary conditions of decryption: it is applied at exactly the reviewed sites (direct objects only, streams once before filters, xref data before any handler exists), AES object data is unpadded while key unwrapping is not, the algorithm constants and orders are the standard's, a failed authentication can only end in PDFPasswordIncorrect, and /P 0 converts to 0. That the derived keys decrypt real files (cryptographic equality) and that every wrong password is rejected are not decided. Also decides that decipher_all visits every list element and dictionary value. Also decides the RC4 key schedule / output loop and the SASLprep mapping and prohibited tables.",
+        "Decides structural necessary conditions of decryption: it is applied at exactly the reviewed sites (direct objects only, streams once before filters, xref data before any handler exists), AES object data is unpadded while key unwrapping is not, the algorithm constants and orders are the standard's, a failed authentication can only end in PDFPasswordIncorrect, and /P 0 converts to 0. That the derived keys decrypt real files (cryptographic equality) and that every wrong password is rejected are not decided. Also decides that decipher_all visits every list element and dictionary value. Also decides the RC4 key schedule / output loop and the SASLprep mapping and prohibited tables. Round 6: password bytes are a strict encoding, no lossy errors mode (C10-R9).",
         "Trusts spec/std_security.json (transcribed from ISO 32000-1 7.6 and ISO 32000-2 7.6.4.3) and the cryptography package.",
         "DESIGN.md §5 C10",
     ),
@@ -81,19 +81,19 @@ CLAIMED = {
     ),
     "C15": (
         "complete inventory of file-system call sites against a reviewed table, call-graph reachability for developer-only sites, backward provenance (taint) from every path argument with basename / realpath-prefix confinement recognised by CFG dominance, dominance of the unique-name loop over write-mode opens and a CFG must-pass check that every assignment of the returned name is followed by the existence test; constant check of the CMAP_PATH default",
-        "Decides, relative to its source and sanitizer tables, that processing a document performs no file-system access other than the reviewed sites, that no document-controlled string reaches a path argument unconfined, and that image export never opens an existing file for writing. The claim is complete for the package's source (every call site is enumerated on each run). The confinement guard is accepted only when both compared paths are symlink-resolved (realpath). The CMAP_PATH fallback must be a fixed absolute directory.",
+        "Decides, relative to its source and sanitizer tables, that processing a document performs no file-system access other than the reviewed sites, that no document-controlled string reaches a path argument unconfined, and that image export never opens an existing file for writing. The claim is complete for the package's source (every call site is enumerated on each run). The confinement guard is accepted only when both compared paths are symlink-resolved (realpath). The CMAP_PATH fallback must be a fixed absolute directory. Round 6: the realpath containment test must be about the very path handed to the sink and the directory that path was joined to.",
         "Trusts the FS-call table, the source/sanitizer tables and the call-graph resolution (fan-out over-approximates callers). Pickle loading of resource files inside the resource directory is trusted.",
         "DESIGN.md §5 C15",
     ),
     "C12": (
         "effect analysis: complete inventory of module/class-level mutable state and of every function-level write to it (item stores, mutator calls, class/module attribute stores, global statements) against a reviewed allow-list; CFG dominance of copy-before-store on shared tables; constructor-site enumeration for mutators of shareable CMap objects; mutable-default scan; cache-path sibling agreement; flow-insensitive alias analysis of the target of every item store / mutator call against the document's parsed dictionaries and lists; dependence analysis of memo-table stores (value depends on the key only); cache write-set inventory (shared with C02); key-expression check of the font cache",
-        "Decides purity as absence of channels: no function writes process-wide state except two reviewed memo tables and the interning tables, shared encoding/colour-space tables are copied before any store, CMap mutators only run on freshly constructed maps, entry points construct their managers per call, caches store exactly what the uncached path returns under the caching flag, and no function writes into a dictionary or list that aliases a parsed (cached) document object. It does not decide bit-for-bit equality of outputs across histories. Also decides that the value stored in a process-wide memo table depends on the key alone and that object caches are only written by their owning lookup. Also decides that the font cache is keyed by object numbers only.",
+        "Decides purity as absence of channels: no function writes process-wide state except two reviewed memo tables and the interning tables, shared encoding/colour-space tables are copied before any store, CMap mutators only run on freshly constructed maps, entry points construct their managers per call, caches store exactly what the uncached path returns under the caching flag, and no function writes into a dictionary or list that aliases a parsed (cached) document object. It does not decide bit-for-bit equality of outputs across histories. Also decides that the value stored in a process-wide memo table depends on the key alone and that object caches are only written by their owning lookup. Also decides that the font cache is keyed by object numbers only. Round 6: per-page interpreter state is created fresh (C12-R9, shared with C05-R11); the interned-name tables only grow (C12-R10).",
         "Assumes deterministic dict order/float arithmetic and immutable resource files; aliasing through function arguments is tracked by annotation kinds and, for nested helpers, their call sites only.",
         "DESIGN.md §5 C12",
     ),
     "C13": (
         "call-graph reachability from the three entry points (typed receivers, name fan-out, function-valued fields, class/module aliases, factory tables, getattr reflection, address-taken references, rapid-type-analysis of implicitly invoked methods, property getters); raise-class inventory; exception-flow analysis (partial-operation table driven by an intra-procedural kind analysis of document values, handlers subtracting by the class hierarchy, summaries to a fixpoint, strict-mode branches pruned); recursion analysis (SCCs of the resolved call graph minus edges discharged by a dominating visited-set guard or a structural-descent witness); amplification scan of loop bounds and allocation sizes; return-dependence check of the casting.safe_* converters; dominance of the key-length validation over every use; seek / CBC / finalize / pop(n) in the partial-operation table",
-        "Decides, over everything reachable from extract_text / extract_pages / extract_text_to_fp, which internal exception classes may escape (by origin construct), which call cycles and reference-following loops lack a guard, and which loop bounds/allocation sizes are bare document integers. Today's tree has 89 such origins, each a genuine defect recorded in known_findings.jsonl (clusters confirmed with failing inputs); any new origin - a removed try, a narrowed except, int_value(x) replaced by x, a removed isinstance, a removed visited set, a new walker over Kids/Next/Prev - is a violation. A numeric work bound is not decided, and completeness is relative to the partial-operation and document-value tables. Also decides that safe_* return only converted values and that the RC4 key length is validated before any key of that length is cut. Negative seeks, short AES initialisation vectors, finalize() on partial blocks and operand-stack slices by unchecked values are origins too.",
+        "Decides, over everything reachable from extract_text / extract_pages / extract_text_to_fp, which internal exception classes may escape (by origin construct), which call cycles and reference-following loops lack a guard, and which loop bounds/allocation sizes are bare document integers. Today's tree has 89 such origins, each a genuine defect recorded in known_findings.jsonl (clusters confirmed with failing inputs); any new origin - a removed try, a narrowed except, int_value(x) replaced by x, a removed isinstance, a removed visited set, a new walker over Kids/Next/Prev - is a violation. A numeric work bound is not decided, and completeness is relative to the partial-operation and document-value tables. Also decides that safe_* return only converted values and that the RC4 key length is validated before any key of that length is cut. Negative seeks, short AES initialisation vectors, finalize() on partial blocks and operand-stack slices by unchecked values are origins too. Round 6: a length test only narrows an index when the relation is the right one (index < len on the way in, index >= len on the way out); the token list of an object stream is typed as a document list.",
         "Trusts the tables in sa/doctaint.py and sa/rules/c13_ops.py (which accessors yield document values, which operations are partial), parameter annotations Dict/Mapping/PDFStream as established types, and the call-graph resolution. The exception family is PSException subclasses plus AssertionError (the repository's fuzz contract).",
         "DESIGN.md §5 C13",
     ),
@@ -111,13 +111,13 @@ CLAIMED = {
     ),
     "C18": (
         "dispatch extraction of the export chain with emptiness-guard check, unit checks of BMP row sizes and header layout, order/strip-length extraction of the inline-image scanner; unique-name must-pass rule shared with C15; channel-order normal form of 24-bit BMP rows; predictor dispatch (shared with C03); regex-anchor and restart checks of the inline-data scanner; row-padding check of the BMP writer; PNG filter arithmetic (shared with C03); refill-sequence of the content parser; image-item bindings",
-        "Decides structural necessary conditions: export format dispatch never indexes an empty filter list; row byte counts for 1-bit/gray/RGB, 4-byte aligned line size, header fields, bottom-up rows; unique export names (shared with C15-R3); inline images: BI/ID context, data start one byte after ID, terminator + white space, exactly len(terminator)+1 bytes stripped, EI re-pushed. Pixel equality of the exported files is value level and not decided. Also decides that exported files never reuse an existing name (path-sensitive) and that 24-bit rows are re-ordered to B,G,R. Also decides that /Predictor 10..15 all go through PNG row decoding, that exactly one end-of-line is stripped before the inline terminator, that a failed partial terminator match restarts on the current byte, and that BMP rows are written padded. Also decides the PNG filter arithmetic for predicted image data, the buffer position used by the inline-image reader, and the bindings of LTImage / render_image / the image branch of Do.",
+        "Decides structural necessary conditions: export format dispatch never indexes an empty filter list; row byte counts for 1-bit/gray/RGB, 4-byte aligned line size, header fields, bottom-up rows; unique export names (shared with C15-R3); inline images: BI/ID context, data start one byte after ID, terminator + white space, exactly len(terminator)+1 bytes stripped, EI re-pushed. Pixel equality of the exported files is value level and not decided. Also decides that exported files never reuse an existing name (path-sensitive) and that 24-bit rows are re-ordered to B,G,R. Also decides that /Predictor 10..15 all go through PNG row decoding, that exactly one end-of-line is stripped before the inline terminator, that a failed partial terminator match restarts on the current byte, and that BMP rows are written padded. Also decides the PNG filter arithmetic for predicted image data, the buffer position used by the inline-image reader, and the bindings of LTImage / render_image / the image branch of Do. Round 6: no exported payload uses get_rawdata/.rawdata (C18-R13).",
         "Trusts the reading of the BMP format encoded in the rule.",
         "DESIGN.md §5 C18",
     ),
     "C19": (
         "reconstruction of the MODE/WHITE/BLACK code sets from the BitParser.add calls and entry-by-entry comparison with ITU-T T.4/T.6, plus transcription-independent identities (prefix-freeness, Kraft sums exactly 255/256, shared extended make-up codes); mode-dispatch, parameter-binding and bit-order sibling checks; guard analysis of reference-line look-behind subscripts and sibling/dual agreement of the changing-element searches; must-pass accumulation of run lengths in horizontal mode; row-reset normal form and paint-condition check; normal form of horizontal-mode painting",
-        "Decides that the code tables are the standard's (any changed, dropped, duplicated or permuted code word is detected), that every mode class is dispatched, that Columns/EncodedByteAlign/BlackIs1 reach the decoder and only K=-1 is decoded, and that reader and writer share the MSB-first bit order. Of the reference-line logic it decides only structural necessary conditions (no look-behind at a negative index, the b1 searches of vertical and pass mode agree, the b2 search is the colour-dual, offset before clamp, pass keeps the colour); that decoded rows equal the encoded bitmap is value level and not decided. Also decides that every code word of a horizontal run is added to the run length (make-up codes accumulate) and that codes below 64 terminate the run. Also decides that each row starts from a fresh all-white buffer and that vertical mode paints runs of either colour. Also decides the painting of the two horizontal runs.",
+        "Decides that the code tables are the standard's (any changed, dropped, duplicated or permuted code word is detected), that every mode class is dispatched, that Columns/EncodedByteAlign/BlackIs1 reach the decoder and only K=-1 is decoded, and that reader and writer share the MSB-first bit order. Of the reference-line logic it decides only structural necessary conditions (no look-behind at a negative index, the b1 searches of vertical and pass mode agree, the b2 search is the colour-dual, offset before clamp, pass keeps the colour); that decoded rows equal the encoded bitmap is value level and not decided. Also decides that every code word of a horizontal run is added to the run length (make-up codes accumulate) and that codes below 64 terminate the run. Also decides that each row starts from a fresh all-white buffer and that vertical mode paints runs of either colour. Also decides the painting of the two horizontal runs. Round 6: the run-length scanners reject exactly `n is None` (a terminating code 0 is valid, C19-R8).",
         "spec/ccitt_codes.json was generated from the repository at the pinned commit and validated by the Kraft/prefix identities and spot checks against T.4; the identities are an oracle independent of that file.",
         "DESIGN.md §5 C19",
     ),
